@@ -299,7 +299,11 @@ def run(ctx):
     ctx.flush()
     ctx.rule = (
         "all 1,114,112 code points (exhaustive) + every string <= %d over %r x sizes 0..12 / widths 1..6 x positions "
-        "+ seeded random segment lists (<=4 segments over %d texts, 4 styles, control flags) x length 0..8 x pad x style; "
+        "+ seeded random cell_len histories (1..14 calls, LRUCache capacity 1/2/3/4/8) over a pool of every string <= 3 plus "
+        "strings of 63..200 characters of every width class (incl. ASCII control characters in plain ASCII text) "
+        "+ seeded random segment lists (<=4 segments over %d texts, 4 styles, control flags) x length 0..8 x pad x style "
+        "+ seeded random segment lists with duck-typed styles (5 style values) for apply_style / filter_control / strip_styles / "
+        "strip_links / remove_color / get_shape; "
         "distinct = distinct canonical requests" % (maxlen, ALPHA, len(texts))
     )
 
@@ -312,16 +316,27 @@ def replay(ctx, case):
     return False
 
 MANIFEST = {
-    "text": "Lean 4 theorems (Props/C13.lean, no bound on string length, table size, cache history or segment list): "
+    "text": "Lean 4 theorems (Props/C13.lean, 25, no bound on string length, table size, cache history or segment list): "
     "binary search = first-match linear scan for every code point given the sortedDisjoint side condition, which is "
     "re-proved by `decide +kernel` on the table translated from rich/_cell_widths.py on every run; cache transparency for "
     "every capacity and call history; set_cell_size exactness; chop_cells concatenation/fit; adjust_line_length / "
-    "split_and_crop_lines / set_shape exact lengths, stream preservation and padding style; simplify stream preservation. "
-    "Tie: all 1,114,112 code points and ~170k further generated cases per quick run compared model-vs-rich (169,825 in the "
-    "recorded quick run; thorough: ~3.7M), plus the theorems' executable statements evaluated on rich's own outputs (~180k "
-    "direct evaluations per quick run, so ~350k non-code-point evaluations in all).",
+    "split_and_crop_lines / set_shape exact lengths, stream preservation and padding style; simplify stream preservation; "
+    "the style-level helpers: apply_style keeps texts, control flags and cell length and leaves control segments unstyled, "
+    "strip_styles / strip_links / remove_color keep texts and control flags, filter_control is the ordered sub-list with the "
+    "flag and dropping control segments keeps the cell length, get_shape is an enclosing rectangle; two `old_` witnesses for "
+    "the two repaired defects. "
+    "Tie: all 1,114,112 code points and ~210k further generated cases per quick run compared model-vs-rich (211,867 in the "
+    "recorded quick run, seed 2), plus the theorems' executable statements evaluated on rich's own outputs (221,533 direct "
+    "evaluations in that run, so ~430k non-code-point evaluations in all). Thorough: strings <= 7 plus 3,000 random strings "
+    "of 8..80 characters, 6,000 cache histories, 250,000 segment lists, 120,000 style-helper segment lists (~3.7M compared "
+    "was the builders' figure before the style-helper cases were added; not re-measured since).",
     "note": "Trusted: Lean kernel; axioms propext/Classical.choice/Quot.sound; translator harness/tables.py; the correspondence "
     "harness; styles are opaque ids in the segment model; lone surrogates go through the raw code-point path only. "
-    "functools.lru_cache on _get_codepoint_cell_size is assumed transparent (exercised, not modelled).",
+    "functools.lru_cache on _get_codepoint_cell_size is assumed transparent (exercised, not modelled). "
+    "Variant flags: REBIND = 0, MERGE_CTL = 0 (the repaired code; 1 = rich 9.10.0 as found, before fix b83f6d1 / b97fe77). "
+    "No `known:` finding is recorded for C13, so the check prints no KNOWN-FINDING line; the slugs splitcrop-pad-style-rebound "
+    "and simplify-merges-control only classify a failure of those two statements, which is a VIOLATION on the repaired code. "
+    "For the style-level helpers Style.__add__ / __bool__ / update_link / without_color are parameters of the model, "
+    "instantiated by duck-typed style objects in the harness (real Style objects are used for the line-shaping cases).",
     "design_ref": "DESIGN.md section 7, C13",
 }
